@@ -68,8 +68,11 @@ fn main() {
         // a runaway allocation must fail (abort -> isolated by the supervisor) instead of
         // dragging the machine into the OOM killer
         let gib: u64 = std::env::var("CVERIF_AS_GIB").ok().and_then(|s| s.parse().ok()).unwrap_or(24);
-        let lim = libc::rlimit { rlim_cur: gib << 30, rlim_max: gib << 30 };
+        // soft limit only: the libFuzzer children of C06 (ASan shadow memory) raise it again
         unsafe {
+            let mut lim = libc::rlimit { rlim_cur: 0, rlim_max: 0 };
+            libc::getrlimit(libc::RLIMIT_AS, &mut lim);
+            lim.rlim_cur = (gib << 30).min(lim.rlim_max);
             libc::setrlimit(libc::RLIMIT_AS, &lim);
         }
     }
